@@ -49,6 +49,16 @@ Definition honest_root (c : scfg) (s2 : L2.l2state) (lo hi : N) (v : N) (bh : by
 Definition l2_plain (m : L2.msg) : bool :=
   match m with L2.MFinalizeDeposit _ | L2.MExecute _ _ => false | _ => true end.
 
+(* L1 messages that move no funds and emit nothing the bridge transports, for ANY bridge: the
+   role / config / params updates, batch records, and the IBC environment changes *)
+Definition l1_admin (m : L1.msg) : bool :=
+  match m with
+  | L1.MUpdateProposer _ _ _ | L1.MUpdateChallenger _ _ _ | L1.MUpdateBatchInfo _ _ _
+  | L1.MUpdateOracle _ _ _ | L1.MUpdateMetadata _ _ _ | L1.MUpdateParams _ _ | L1.MRecordBatch _ _ _
+  | L1.MChanSet _ _ | L1.MAdminSet _ _ => true
+  | _ => false
+  end.
+
 Inductive smsg :=
 | SDeposit (e : L1.env) (sender to d : bytes) (amt : Z) (data : bytes)       (* L1 user deposit into the bridge *)
 | SSend1 (e : L1.env) (from to : N) (d : bytes) (amt : Z)                    (* L1 bank send; to the escrow = a donation *)
@@ -56,7 +66,8 @@ Inductive smsg :=
 | SRelay (k : N) (executor : bytes) (height : N) (hook : L2.hookp)          (* relay of the event with sequence k *)
 | SPropose (e : L1.env) (proposer : bytes) (idx l2block lo hi v : N) (bh : bytes)   (* honest output over events (lo, hi] *)
 | SDelete (e : L1.env) (challenger : bytes) (idx : N)
-| SClaim (e : L1.env) (sender : bytes) (idx m lo hi v : N) (bh : bytes).     (* claim of recorded withdrawal m against output idx *)
+| SClaim (e : L1.env) (sender : bytes) (idx m lo hi v : N) (bh : bytes)      (* claim of recorded withdrawal m against output idx *)
+| SAdmin1 (e : L1.env) (m : L1.msg).                                        (* L1 role / config / params / environment message *)
 
 Definition set_l1 (s : sys) (x : L1.l1state) : sys := {| l1 := x; l2 := l2 s; paid := paid s; donated := donated s |}.
 Definition set_l2 (s : sys) (x : L2.l2state) : sys := {| l1 := l1 s; l2 := x; paid := paid s; donated := donated s |}.
@@ -121,6 +132,7 @@ Definition sys_step (c : scfg) (s : sys) (m : smsg) : sys * bool :=
           end
       | None => (s, false)
       end
+  | SAdmin1 e m1 => if l1_admin m1 then lift1 c s e m1 else (s, false)
   end.
 
 Fixpoint sys_run (c : scfg) (s : sys) (h : list smsg) : sys :=
